@@ -154,7 +154,7 @@ class Brancher(object):
             for i, a in enumerate(alts):
                 if a is None or self.feasible(st.pc, a):
                     feas.append(i)
-        if self.shard is not None and not self.shard_used and len(feas) >= 2:
+        if self.shard is not None and not self.shard_used and len(feas) >= max(2, self.shard[1]):
             i, n = self.shard
             self.shard_used = True
             feas = [f for j, f in enumerate(feas) if j % n == i]
